@@ -76,7 +76,7 @@ func (e *evaluator) collect(typ string, sets []*SelSet) []*group {
 				if !e.d.Included(it.Frag.Dirs) {
 					continue
 				}
-				if it.Frag.On != typ {
+				if it.Frag.On != typ && !e.unionHas(it.Frag.On, typ) {
 					continue
 				}
 				visit(it.Frag.Set)
@@ -184,4 +184,19 @@ func (e *evaluator) complete(v interface{}, tr TypeRef, subs []*SelSet, path []s
 		return nil
 	}
 	panic("bad type ref")
+}
+
+// unionHas reports whether name is a union type with member typ (a fragment
+// on the union type itself applies to every member).
+func (e *evaluator) unionHas(name, typ string) bool {
+	t := e.sd.Types[name]
+	if t == nil || !t.IsUnion {
+		return false
+	}
+	for _, m := range t.Members {
+		if m == typ {
+			return true
+		}
+	}
+	return false
 }
